@@ -198,11 +198,11 @@ class Enc:
             self.finish(i)
 
 
-def slot_order_stream(rnd):
+def slot_order_stream(rnd, kind=None, m=None):
     """3.4+: a FLAG_REF container with FLAG_REF members, then a back-reference to every slot: which object sits in which
     slot depends on whether the container reserves its slot before or after reading its members."""
-    kind = rnd.choice(["(", ")", "[", "<", ">", "{"])
-    m = rnd.randrange(1, 4)
+    kind = kind or rnd.choice(["(", ")", "[", "<", ">", "{"])
+    m = m or rnd.randrange(1, 4)
     out = [ord("("), 0, 0, 0, 0]
     items = 1
     FLAG = 0x80
@@ -341,6 +341,17 @@ def matrix_streams(fam):
                     if c in "<>" and big:
                         continue
                 out.append((bs, sorted((list(a), b) for a, b in ft.items()), {"matrix:" + c[0] + k: 1}))
+    if f["v34"]:
+        # every FLAG_REF container kind with FLAG_REF members and a back-reference to every slot (which object sits in which slot shows
+        # whether the container reserved its slot before reading its members), whatever the seed
+        import random
+        for kind in ["(", ")", "[", "<", ">", "{"]:
+            for m in (1, 3):
+                out.append(slot_order_stream(random.Random(ord(kind) * 7 + m), kind, m))
+    if f["interned"]:
+        import random
+        for j in range(3):
+            out.append(interned_dup_stream(random.Random(j)))
     return out
 
 
